@@ -32,6 +32,7 @@ import (
 	"fmt"
 	"os"
 	"runtime"
+	"runtime/debug"
 	"sort"
 	"strconv"
 	"strings"
@@ -47,8 +48,91 @@ import (
 // generation
 
 type gen struct {
-	r   *vlib.Rng
-	out *vlib.Out
+	r    *vlib.Rng
+	out  *vlib.Out
+	base int // waiter ids of the current family start at base+1 (ids below belong to the history prefix)
+}
+
+// begin opens a case.  With probability pct the family is PRECEDED, on the same Cond, by rounds in
+// which waiters are woken the normal way by Broadcast (and Signal), so that the sync.Pool holds nodes
+// with history when the family's own waiters allocate theirs: a defect that leaves state on a
+// recycled node (a stale token, a stale mark) only shows on such a node.
+func (g *gen) begin(pct int) {
+	g.l("new")
+	g.base = 0
+	if g.r.Chance(pct) {
+		g.history()
+	}
+}
+
+// history: 1–3 rounds of 2–4 never-cancelling waiters, all woken through the receive arm by one
+// Broadcast (mostly) or by as many Signals, then a settle (everybody returned nil, nodes pooled).
+func (g *gen) history() {
+	r := g.r
+	rounds := r.Range(1, 3)
+	for i := 0; i < rounds; i++ {
+		k := r.Range(2, 4)
+		for j := 0; j < k; j++ {
+			g.base++
+			g.l("wait %d %s", g.base, vlib.Pick(r, []string{"bg", "bg", "bgn"}))
+		}
+		switch p := r.Intn(100); {
+		case p < 60 || i == 0:
+			g.l("broadcast")
+		case p < 75:
+			g.l("lbroadcast")
+		default:
+			for j := 0; j < k; j++ {
+				g.l("signal")
+			}
+		}
+		g.l("settle")
+	}
+}
+
+// pinned: after a history prefix, the exact window of the property, several times on the same Cond:
+// waiter A (cancellable, frozen by the gated Locker right after it enqueued, i.e. before its select)
+// with a never-cancelling waiter B queued behind it; Signal reaches A; A's context ends; A is released.
+// Whichever arm A's select takes, one Wait must return nil for that Signal.
+func (g *gen) pinned() {
+	r := g.r
+	g.l("new")
+	g.base = 0
+	g.history()
+	reps := r.Range(2, 4)
+	for i := 0; i < reps; i++ {
+		a := g.base + 1
+		b := g.base + 2
+		g.base += 2
+		g.l("wait %d %s hold", a, vlib.Pick(r, []string{"can", "can", "can", "exp", "to0"}))
+		extra := 0
+		if r.Chance(30) { // somebody cancelled in between: chained hand-off
+			extra = g.base + 1
+			g.base++
+			g.l("wait %d can hold", extra)
+		}
+		g.l("wait %d %s", b, vlib.Pick(r, []string{"bg", "bg", "bgn"}))
+		g.l("%s", vlib.Pick(r, []string{"signal", "signal", "lsignal"}))
+		g.l("cancel %d", a)
+		if extra != 0 {
+			g.l("cancel %d", extra)
+		}
+		if r.Chance(50) {
+			g.l("release %d", a)
+		}
+		g.l("settle")
+		g.l("signal") // wakes b if a's select took the receive arm
+		g.l("settle")
+		if r.Chance(40) { // refresh the history
+			g.l("wait %d bg", g.base+1)
+			g.l("wait %d bg", g.base+2)
+			g.base += 2
+			g.l("broadcast")
+			g.l("settle")
+		}
+	}
+	g.l("broadcast")
+	g.l("settle")
 }
 
 func (g *gen) l(format string, a ...any) { g.out.Line(format, a...) }
@@ -67,14 +151,14 @@ func (g *gen) cleanup(ws []int, kinds map[int]string) {
 // has ended takes either arm; if it takes the ctx arm it must pass the token on.
 func (g *gen) handoff() {
 	r := g.r
-	g.l("new")
+	g.begin(45)
 	k := r.Range(1, 4)
 	pos := r.Intn(k) // the raced waiter
 	kinds := map[int]string{}
 	var ws []int
 	chain := r.Chance(30) // several consecutive raced waiters: chained hand-off
 	for i := 0; i < k; i++ {
-		w := i + 1
+		w := g.base + i + 1
 		ws = append(ws, w)
 		raced := i == pos || (chain && i > pos && r.Chance(60))
 		if raced {
@@ -126,13 +210,13 @@ func (g *gen) handoff() {
 // timeouts tuned around the signal
 func (g *gen) timeouts() {
 	r := g.r
-	g.l("new")
+	g.begin(40)
 	k := r.Range(1, 4)
 	kinds := map[int]string{}
 	var ws []int
 	d := vlib.Pick(r, []int{0, 20, 60, 120, 300, 700, 1500, 2000})
 	for i := 0; i < k; i++ {
-		w := i + 1
+		w := g.base + i + 1
 		ws = append(ws, w)
 		if r.Chance(55) {
 			kinds[w] = "to"
@@ -159,12 +243,12 @@ func (g *gen) timeouts() {
 // explicit cancels racing Signal / Broadcast
 func (g *gen) races() {
 	r := g.r
-	g.l("new")
+	g.begin(45)
 	k := r.Range(1, 4)
 	kinds := map[int]string{}
 	var ws, cans []int
 	for i := 0; i < k; i++ {
-		w := i + 1
+		w := g.base + i + 1
 		ws = append(ws, w)
 		if r.Chance(60) {
 			kinds[w] = "can"
@@ -204,12 +288,12 @@ func (g *gen) races() {
 // broadcast with everybody parked / some cancelled / some frozen
 func (g *gen) broadcasts() {
 	r := g.r
-	g.l("new")
+	g.begin(30)
 	k := r.Range(1, 5)
 	kinds := map[int]string{}
 	var ws []int
 	for i := 0; i < k; i++ {
-		w := i + 1
+		w := g.base + i + 1
 		ws = append(ws, w)
 		kinds[w] = vlib.Pick(r, []string{"bg", "bg", "bgn", "can", "can", "exp", "to30"})
 		hold := ""
@@ -230,7 +314,7 @@ func (g *gen) broadcasts() {
 	g.l("settle")
 	// late waiter after the broadcast: must not be woken by it unless a token is forwarded
 	if r.Chance(50) {
-		w := k + 1
+		w := g.base + k + 1
 		ws = append(ws, w)
 		kinds[w] = vlib.Pick(r, []string{"bg", "can"})
 		g.l("wait %d %s", w, kinds[w])
@@ -242,10 +326,10 @@ func (g *gen) broadcasts() {
 // several rounds on the same Cond: pooled nodes are reused by later waiters
 func (g *gen) reuse() {
 	r := g.r
-	g.l("new")
+	g.begin(40)
 	kinds := map[int]string{}
 	var live []int
-	next := 1
+	next := g.base + 1
 	rounds := r.Range(2, 4)
 	for round := 0; round < rounds; round++ {
 		k := r.Range(1, 3)
@@ -259,6 +343,9 @@ func (g *gen) reuse() {
 				hold = " hold"
 			}
 			g.l("wait %d %s%s", w, kinds[w], hold)
+		}
+		if r.Chance(25) {
+			g.l("broadcast")
 		}
 		for i := 0; i < r.Range(0, 2); i++ {
 			g.l("signal")
@@ -275,15 +362,15 @@ func (g *gen) reuse() {
 
 func (g *gen) random() {
 	r := g.r
-	g.l("new")
+	g.begin(30)
 	kinds := map[int]string{}
 	var ws []int
-	next := 1
+	next := g.base + 1
 	n := r.Range(4, 12)
 	for i := 0; i < n; i++ {
 		p := r.Intn(100)
 		switch {
-		case p < 35 && next <= 5:
+		case p < 35 && next <= g.base+5:
 			w := next
 			next++
 			ws = append(ws, w)
@@ -336,6 +423,8 @@ func generate(tier string, out *vlib.Out) {
 		"new\nwait 1 can\ncancel 1\nsettle\nwait 2 bg\nsignal\nsettle\nwait 3 bg\nsettle\nsignal\nsettle",
 		// Signal / Broadcast while the caller holds L; two Signals racing
 		"new\nwait 1 bg\nwait 2 bg\nwait 3 can\nlsignal\nsettle\nrace signal lsignal 5\nsettle\nlbroadcast\nsettle",
+		// history on the pooled nodes (woken normally by Broadcast), then the hand-off window, twice
+		"new\nwait 1 bg\nwait 2 bg\nwait 3 bgn\nbroadcast\nsettle\nwait 4 can hold\nwait 5 bg\nsignal\ncancel 4\nrelease 4\nsettle\nsignal\nsettle\nwait 6 can hold\nwait 7 bg\nsignal\ncancel 6\nsettle\nbroadcast\nsettle",
 		// signal with no waiter is not remembered
 		"new\nsignal\nbroadcast\nwait 1 bg\nsettle\nsignal\nsettle",
 		// timeouts
@@ -346,12 +435,14 @@ func generate(tier string, out *vlib.Out) {
 			out.Line("%s", l)
 		}
 	}
-	cases := 1200
+	cases := 1000
 	if tier == "thorough" {
 		cases = 6000
 	}
 	for i := 0; i < cases; i++ {
 		switch p := g.r.Intn(100); {
+		case p < 10:
+			g.pinned()
 		case p < 30:
 			g.handoff()
 		case p < 45:
@@ -501,6 +592,7 @@ type caseState struct {
 	orderMu sync.Mutex
 	order   []*waiter // waiters in the order they enqueued
 	counter int       // plain variable, only touched while holding L
+	hadBc   bool      // a Broadcast has been called on this Cond
 	errs    atomic.Int64
 	seenCh  map[chan struct{}]bool
 }
@@ -517,6 +609,8 @@ type stats struct {
 	HandoffCertain int            `json:"handoff_or_drop_certain"`
 	RecvArmWonRace int            `json:"signalled_and_ended_returned_nil"`
 	NodeReused     int            `json:"waits_on_reused_node"`
+	AfterBcast     int            `json:"waits_after_a_broadcast_on_the_same_cond"`
+	AfterBcastRe   int            `json:"waits_after_a_broadcast_on_a_reused_node"`
 	NodeKnown      int            `json:"waits_with_identified_node"`
 	MaxParked      int            `json:"max_list_len"`
 	Hangs          int            `json:"hangs"`
@@ -639,10 +733,16 @@ func (cs *caseState) startWait(id int, kindArg string, hold bool) string {
 	if w.state.Load() == stPanic {
 		return "panic:" + w.panicMsg
 	}
+	if cs.hadBc {
+		st.AfterBcast++
+	}
 	if w.ch != nil {
 		st.NodeKnown++
 		if cs.seenCh[w.ch] {
 			st.NodeReused++
+			if cs.hadBc {
+				st.AfterBcastRe++
+			}
 		}
 		cs.seenCh[w.ch] = true
 	}
@@ -943,6 +1043,9 @@ func (o *lineOut) Line(format string, a ...any) { fmt.Fprintf(o.f, format+"\n", 
 func (o *lineOut) Close()                        { o.f.Close() }
 
 func run(opsPath, outPath, statsPath string) {
+	// sync.Pool is emptied by the garbage collector; the scenarios want pooled wait nodes to survive
+	// from one round to the next, and the process is short-lived and small.
+	debug.SetGCPercent(-1)
 	lines := vlib.ReadLines(opsPath)
 	out := newLineOut(outPath)
 	defer out.Close()
@@ -1013,10 +1116,12 @@ func run(opsPath, outPath, statsPath string) {
 				cs.noteTokens(false)
 				obs = cs.guarded(func() { cs.c.Signal() })
 			case "broadcast":
+				cs.hadBc = true
 				cs.noteTokens(true)
 				obs = cs.guarded(func() { cs.c.Broadcast() })
 			case "lsignal", "lbroadcast":
 				op := f[0]
+				cs.hadBc = cs.hadBc || op == "lbroadcast"
 				obs = cs.guarded(func() { cs.doOp(op) })
 			case "race":
 				if len(f) != 4 {
